@@ -40,6 +40,11 @@ def extract_model(m, inputs, cap=8):
                     put(name + "_truncated_from", n)
             elif desc[0] == "const":
                 put(name, model_value(m, desc[1]))
+            elif desc[0] == "set":
+                arr = desc[1]
+                dom = arr.sort().domain()
+                uni = m.get_universe(dom) or []
+                put(name, [str(e) for e in uni if z3.is_true(m.eval(arr[e], model_completion=True))])
         except Exception as e:  # pragma: no cover
             put(name, f"<{e}>")
     return out
@@ -81,9 +86,12 @@ def discharge_all(session, obligations, timeout_ms, inputs):
             solver.add(sv)
             if st == "refuted":
                 status = "refuted"
-                m2 = small_model(ob, inputs, min(timeout_ms, 5000)) if m is not None else None
+                inp = ob.inputs if ob.inputs is not None else inputs
+                m2 = small_model(ob, inp, min(timeout_ms, 5000)) if m is not None else None
                 mm = m2 or m
-                model = extract_model(mm, inputs) if mm is not None else None
+                model = extract_model(mm, inp) if mm is not None else None
+                if model is not None and ob.values:
+                    model.update(ob.values)
                 detail = det or f"path decisions {list(ob.path)}"
                 break
             if st == "unknown":
